@@ -373,6 +373,9 @@ class H:
         self.notes.append(f"known finding {kf_id}: region carved out of the obligation (witness replayed separately)")
         if self.replay_kf == kf_id:
             return self.false()
+        ign = _os.environ.get('SYMNP_IGNORE_KF', '')
+        if ign and (ign == 'all' or kf_id in ign.split(',')):
+            return self.false()         # diagnostic mode: let the solver re-find the known finding
         return region
 
     def lemma(self, name, p):
@@ -411,8 +414,9 @@ class H:
     def exclude_known(self, kf_id, region):
         """remove a known finding's region from the domain (the finding's witness is replayed separately)"""
         self.notes.append(f"known finding {kf_id}: region excluded from the domain (its witness is replayed separately)")
-        if self.replay_kf == kf_id:
-            return              # replaying the finding's own witness: the region must stay in
+        ign = _os.environ.get('SYMNP_IGNORE_KF', '')
+        if self.replay_kf == kf_id or (ign and (ign == 'all' or kf_id in ign.split(','))):
+            return              # replaying the finding's own witness / diagnostic mode: the region must stay in
         self.assume(~region, name=f"not-in-known-finding-{kf_id}")
 
     def check(self, name, p):
